@@ -22,6 +22,7 @@ import (
 	"github.com/gopacket/gopacket/pcapgo"
 
 	"verif/harness/internal/pk"
+	"verif/harness/internal/sig"
 	"verif/harness/internal/vlib"
 )
 
@@ -197,6 +198,22 @@ func (c *Corpus) deepSeeds(t gopacket.LayerType) int {
 	return deep
 }
 
+// First holds, when RecordFirst is set before Build, what the earliest decodes of this process returned (the builder's
+// ranking pass tries every fixture literal against the types that lack seeds, before the hand-made and searched inputs
+// are decoded): C02 decodes the same inputs again at the very end of its run, after everything else was decoded.
+type FirstDecode struct {
+	T    gopacket.LayerType
+	B    []byte
+	DSAD bool // decoded with DecodeStreamsAsDatagrams (always with NoCopy)
+	Sig  sig.PacketSig
+}
+
+var (
+	RecordFirst   bool
+	First         []FirstDecode
+	firstFixtures int
+)
+
 // LastInput, when set, receives every input just before the corpus builder hands it to the library: the builder runs
 // library code outside any case, and a process-fatal error there (stack overflow, ...) must still name its input.
 var LastInput *os.File
@@ -223,6 +240,10 @@ func (c *Corpus) addDecoded(data []byte, first gopacket.LayerType) int {
 		p.Layers()
 	}); pi != nil || p == nil {
 		return 0
+	}
+	if RecordFirst && firstFixtures < 1500 && len(data) <= 2048 {
+		firstFixtures++
+		vlib.Guard(func() { First = append(First, FirstDecode{T: first, B: data, DSAD: true, Sig: sig.Packet(p, true)}) })
 	}
 	n := 0
 	base := addr(data)
@@ -304,6 +325,9 @@ func Build(repo string) *Corpus {
 				ls := p.Layers()
 				if p.ErrorLayer() == nil && len(ls) > 0 && ls[0].LayerType() == t {
 					score = min(len(ls[0].LayerContents()), 512) + 64*(len(ls)-1)
+					if RecordFirst && len(First) < 3000 && len(b) <= 1024 {
+						First = append(First, FirstDecode{T: t, B: b, Sig: sig.Packet(p, true)})
+					}
 				}
 			})
 			if score >= 0 {
@@ -935,6 +959,13 @@ func handMade() map[gopacket.LayerType][][]byte {
 		return append([]byte{0, 0, 9, 0, 2, 0, 0, 0, flags}, frame...)
 	}
 	return map[gopacket.LayerType][][]byte{
+		// CDP: an Addresses TLV with one 802.2-format (8-byte protocol id) IPv6 address and one NLPID IPv4 address, and a
+		// management-address TLV - the fixtures only carry the one-byte protocol id form
+		layers.LayerTypeCiscoDiscovery: {
+			{2, 0xb4, 0, 0, 0, 1, 0, 6, 'R', '1', 0, 2, 0, 0x2d, 0, 0, 0, 2, 2, 8, 0xaa, 0xaa, 3, 0, 0, 0, 0x86, 0xdd, 0, 16, 0xfe, 0x80, 0, 0, 0, 0, 0, 0, 2, 0x0b, 0xbe, 0xff, 0xfe, 0x18, 0x9a, 0x41, 1, 1, 0xcc, 0, 4, 10, 0, 0, 1,
+				0, 0x16, 0, 0x11, 0, 0, 0, 1, 1, 1, 0xcc, 0, 4, 10, 0, 0, 2},
+			{2, 0xb4, 0, 0, 0, 2, 0, 0x24, 0, 0, 0, 1, 2, 8, 0xaa, 0xaa, 3, 0, 0, 0, 8, 0, 0, 16, 0xfe, 0x80, 0, 0, 0, 0, 0, 0, 2, 0x0b, 0xbe, 0xff, 0xfe, 0x18, 0x9a, 0x41},
+		},
 		layers.LayerTypeRadioTap: {rtap(0x20, qos), rtap(0x30, append(append([]byte{}, wds...), 1, 2, 3, 4))},
 		layers.LayerTypeSCTP: {sctp(hb), sctp(hbAck), sctp(sErr), sctp(abort), sctp(unk), sctp(unkSkip, data), sctp(cookieAck), sctp(shutAck), sctp(shutDone), sctp(shut),
 			sctp(cookie, data), sctp(initC), sctp(initAck), sctp(sack, data), sctp(data, sack, hb)},
